@@ -245,6 +245,68 @@ def array_dtype_part(job):
     return F.n, F.bad
 
 
+def boundary_roundtrips(job):
+    """BOUNDED: the boundary stratum the embeddings themselves create - a lower-dimensional vector embedded with the imputed zero (theta = 0,
+    eta = 0, z = 0, t = 0, tau = 0) - converted to every other system of that dimension and back returns the stored coordinates
+    (NumPy / Awkward arrays: IEEE semantics; inf == inf, absolute tolerance 1e-9)."""
+    import math
+    import numpy as np
+    import vector
+    from .. import arrays as AR
+    from .. import engined as E
+    try:
+        import awkward as ak
+    except Exception:
+        ak = None
+    system, mom = job
+    F = E.Fails()
+    if len(system) != 1:
+        return F.n, F.bad
+    vals = {"x": np.array([1.5, -2.0]), "y": np.array([-0.5, 0.75]), "rho": np.array([2.0, 0.5]), "phi": np.array([0.3, -2.5])}
+    names = AR.names_of(system)
+    key = (lambda n: AR.MOM.get(n, n)) if mom else (lambda n: n)
+    backends = [("numpy", lambda: vector.array({key(n): vals[n].copy() for n in names}))]
+    if ak is not None:
+        backends.append(("awkward", lambda: vector.zip({key(n): ak.Array(vals[n]) for n in names})))
+    sys3 = [s for s in AR.systems() if len(s) == 2]
+    sys4 = [s for s in AR.systems() if len(s) == 3]
+
+    def conv(v, s):
+        return getattr(v, "to_" + "".join(s))()
+
+    def col(v, n):
+        c = getattr(v, n)
+        return np.asarray(ak.to_numpy(c) if (ak is not None and isinstance(c, ak.Array)) else c, dtype=float)
+
+    def same(a, b):
+        return bool(np.all((np.isinf(a) & np.isinf(b) & (np.sign(a) == np.sign(b))) | (np.abs(np.where(np.isinf(a), 0, a) - np.where(np.isinf(b), 0, b)) <= 1e-9) & ~(np.isinf(a) ^ np.isinf(b))))
+    tag0 = f"[{','.join(system)}|{'mom' if mom else 'gen'}"
+    for bname, mkv in backends:
+        for targets in (sys3,):         # 4D: an imputed t = 0 makes the vector spacelike with (for theta = 0) infinite components - outside the representable domain
+            for T_ in targets:
+                try:
+                    with np.errstate(all="ignore"):
+                        w = conv(mkv(), T_)           # imputes zeros for the missing coordinates
+                        ref = {n: col(w, n) for n in AR.names_of(T_)}
+                except Exception as e:
+                    F.check("C04", f"boundary-roundtrip/defined/to_{''.join(T_)}{tag0}|{bname}]", False, f"{type(e).__name__}: {str(e)[:120]}")
+                    continue
+                for U in targets:
+                    if U == T_:
+                        continue
+                    tag = f"to_{''.join(T_)}->to_{''.join(U)}->back{tag0}|{bname}]"
+                    try:
+                        with np.errstate(all="ignore"):
+                            back = conv(conv(w, U), T_)
+                        for n in AR.names_of(T_):
+                            got = col(back, n)
+                            ok = same(got, ref[n]) or (n == "phi" and bool(np.all(np.abs(np.angle(np.exp(1j * (got - ref[n])))) <= 1e-9)))
+                            F.check("C04", f"boundary-roundtrip/{n}/{tag}", ok, dict(got=got.tolist(), expected=ref[n].tolist()))
+                    except Exception as e:
+                        F.check("C04", f"boundary-roundtrip/defined/{tag}", False, f"{type(e).__name__}: {str(e)[:120]}")
+    return F.n, F.bad
+
+
 def main(argv):
     report = C.Report("C04")
     t0 = time.time()
@@ -252,7 +314,7 @@ def main(argv):
     res = C.pool_map(shard, jobs)
     n = sum(r[0] for r in res)
     bad = [b for r in res for b in r[1]]
-    ares = C.pool_map(array_dtype_part, jobs)
+    ares = C.pool_map(array_dtype_part, jobs) + C.pool_map(boundary_roundtrips, jobs)
     n_arr = sum(r[0] for r in ares)
     arr_bad = [(oid, d_) for r in ares for p_, oid, d_ in r[1]]
     groups = {}
@@ -265,7 +327,7 @@ def main(argv):
             report.known_finding(oid, kf["what"] + f" ({len(items)} lattice points)")
         else:
             report.violation(oid, dict(kind="object-backend-symbolic-evaluation", failing_lattice_points=len(items), first=dict(obligation=oid, detail=detail),
-                                       others=[o for o, _ in items[1:6]], replay_handler="vv.props.c04:replay_arr" if "/array-dtypes/" in oid else "vv.props.c04:replay"), has_input=True)
+                                       others=[o for o, _ in items[1:6]], replay_handler="vv.props.c04:replay_arr" if ("/array-dtypes/" in oid or "/boundary-roundtrip/" in oid) else "vv.props.c04:replay"), has_input=True)
 
     def post(rep, results, coverage):
         rep.violations += report.violations
@@ -303,7 +365,7 @@ def replay_arr(prop, rp, path):
     import re
     oid = rp["first"]["obligation"]
     m = re.search(r"\[([a-z,]+)\|(mom|gen)\|", oid)
-    n, bad = array_dtype_part((tuple(m.group(1).split(",")), m.group(2) == "mom"))
+    n, bad = (boundary_roundtrips if "/boundary-roundtrip/" in oid else array_dtype_part)((tuple(m.group(1).split(",")), m.group(2) == "mom"))
     hit = [b for b in bad if b[1] == oid]
     for b in hit[:3]:
         print("still failing:", b)
